@@ -25,6 +25,8 @@ from ndn.encoding import InterestParam
 from ndn.transport.dummy_face import DummyFace
 from ndn.security import KeychainDigest
 from ndn import app as appv1
+from ndn.types import NetworkError
+from ndn.appv2 import ValidResult
 
 from . import _recv as R
 
@@ -362,9 +364,21 @@ def run_reply(inp):
                 while time.time() < target:
                     await asyncio.sleep(min(0.005, max(0.0, target - time.time())))
             fe.face.sent.clear()
+            desc = 'lifetime=%s token=%s reply#%d at deadline%+d ms' % (lifetime, inp['token'], k, off)
+            if inp.get('face_down'):
+                # the connection is gone by the time the handler replies: nothing can be transmitted, so the callback must
+                # not claim it was (an error or a falsy value is truthful, True is not)
+                fe.face.running = False
+                try:
+                    ret = reply(datas[k])
+                except NetworkError:
+                    ret = None
+                if ret:
+                    viol('reply-return-value-face-down', desc + ': the face is down, %d packet(s) were handed to it and the callback '
+                         'returned %r' % (len(fe.face.sent), ret))
+                continue
             ret = reply(datas[k])
             sent = list(fe.face.sent)
-            desc = 'lifetime=%s token=%s reply#%d at deadline%+d ms' % (lifetime, inp['token'], k, off)
             expect_wire = datas[k] if token is None else R.lp_wire(datas[k], [(R.LP_PIT_TOKEN, token)])
             if off < 0:
                 if not sent:
@@ -400,6 +414,62 @@ def run_reply(inp):
     except Exception as e:
         out.append(('C04:v2:reply-exception:%s' % type(e).__name__, 'unexpected %s (%s) at %s' % (
             type(e).__name__, e, R.where(e))))
+    for be in case.background_errors:
+        out.append(('C04:v2:background:%s' % be[0], 'background task error %s at %s: %s' % be))
+    return out
+
+
+def run_overlap(inp):
+    """appv2: the table changes while an Interest that already arrived is still on its way to the handler (its validator is
+    still thinking, or its delivery task has not had its turn): the Interest is not lost - exactly one handler gets it, the one
+    of its longest prefix before or after the change.
+    inp: {'kind': 'plain'|'params', 'validator_ms': int, 'change': 'attach-longer'|'attach-sibling'|'detach-reattach-longer'}"""
+    out = []
+
+    def viol(key, what):
+        out.append(('C04:v2:' + key, what))
+
+    async def main(case):
+        fe = R.V2()
+
+        async def slow(name, sig, ctx):
+            if inp['validator_ms']:
+                await asyncio.sleep(inp['validator_ms'] / 1000.0)
+            return ValidResult.PASS
+        fe.app.attach_handler('/a', fe.handler(1), slow)
+        comps = comps_of(('a', 'ab', 'x'))
+        wire = R.interest_wire(comps, app_param=b'p' if inp['kind'] == 'params' else None)
+        await fe.app._receive(5, wire)
+        # ... and, before the Interest has reached a handler:
+        if inp['change'] == 'attach-longer':
+            fe.app.attach_handler('/a/ab', fe.handler(2), slow)
+        elif inp['change'] == 'attach-sibling':
+            fe.app.attach_handler('/a/a', fe.handler(2), slow)
+        else:
+            fe.app.attach_handler('/a/ab', fe.handler(2), slow)
+            fe.app.detach_handler('/a/ab')
+        await asyncio.sleep((inp['validator_ms'] + 5) / 1000.0)
+        await case.settle()
+        who = [c.hid for c in fe.log]
+        allowed = ([1], [2]) if inp['change'] == 'attach-longer' else ([1],)
+        if who not in allowed:
+            viol('interest-in-flight-during-table-change', 'Interest /a/ab/x arrived with /a attached; %s before it reached a handler '
+                 '(%s Interest, validator %d ms): delivered to handlers %s, expected exactly one of %s'
+                 % (inp['change'], inp['kind'], inp['validator_ms'], who, [a[0] for a in allowed]))
+        # the table itself is as if nothing had been in flight
+        fe.log.clear()
+        await fe.app._receive(5, R.interest_wire(comps, nonce=77))
+        await asyncio.sleep((inp['validator_ms'] + 5) / 1000.0)
+        await case.settle()
+        want = [2] if inp['change'] == 'attach-longer' else [1]
+        if [c.hid for c in fe.log] != want:
+            viol('dispatch-after-table-change', 'a later Interest /a/ab/x went to handlers %s, expected %s' % ([c.hid for c in fe.log], want))
+
+    case = R.CaseLoop()
+    try:
+        case.run(main)
+    except Exception as e:
+        out.append(('C04:v2:overlap-exception:%s' % type(e).__name__, 'unexpected %s (%s) at %s' % (type(e).__name__, e, R.where(e))))
     for be in case.background_errors:
         out.append(('C04:v2:background:%s' % be[0], 'background task error %s at %s: %s' % be))
     return out
@@ -452,13 +522,22 @@ def gen_cases(tier, seed):
                     for dl in ((5, 300) if tier == 'thorough' or o == [-1] else (5,)):
                         cases.append(('reply', {'lifetime': lt, 'token': tok, 'offsets': o, 'data_len': dl,
                                                 'clock': 'fake', 'via_lp': via_lp}))
+    for lt in (None, 50, 4000):
+        for tok in (None, '0a0b', 'ab' * 32):
+            for o in ([-1], [-(DEFAULT_LIFETIME_MS if lt is None else lt)], [-1, -1], [1]):
+                cases.append(('reply', {'lifetime': lt, 'token': tok, 'offsets': o, 'data_len': 5, 'clock': 'fake', 'via_lp': False,
+                                        'face_down': True}))
+    for kind in ('plain', 'params'):
+        for vms in (0, 3, 20):
+            for change in ('attach-longer', 'attach-sibling', 'detach-reattach-longer'):
+                cases.append(('overlap', {'kind': kind, 'validator_ms': vms, 'change': change}))
     for tok in (None, '0a0b'):
         cases.append(('reply', {'lifetime': 300, 'token': tok, 'offsets': [-290, 100], 'data_len': 5, 'clock': 'real',
                                 'via_lp': False}))
     return cases
 
 
-RUNNERS = {'history': run_history, 'v1route': run_v1_route, 'reply': run_reply}
+RUNNERS = {'history': run_history, 'v1route': run_v1_route, 'reply': run_reply, 'overlap': run_overlap}
 
 
 def run(tier: str, seed: int, shard):
@@ -473,7 +552,7 @@ def run(tier: str, seed: int, shard):
             continue
         res = RUNNERS[fam](inp)
         ev += 1
-        if fam == 'reply' or inp['S']:
+        if fam in ('reply', 'overlap') or inp['S']:
             seen.add(R.h(fam, sorted(inp.items(), key=lambda kv: kv[0])))
         if len(samples) < 4 and (fam != 'history' or len(inp['S']) >= 2):
             samples.append({'family': fam, **inp})
